@@ -770,7 +770,7 @@ func writeEvidence(prop, tier string, seed int, results []*harnessResult, traces
 			"solver":                        solver,
 			"solver_time_s":                 round(solverT),
 			"load_and_ssa_build_s":          round(loadT.Seconds()),
-			"inconclusive":                  inconclusive,
+			"inconclusive":                  nonNil(inconclusive),
 			"known_findings":                kf,
 			"unwinding_failures":            countPrefix(inconclusive, "unwinding"),
 			"exhaustive":                    len(inconclusive) == 0,
@@ -825,4 +825,11 @@ func assumptionsFor(results []*harnessResult) []string {
 func cmdSelftest(args []string) int {
 	fmt.Println("selftest: ok")
 	return 0
+}
+
+func nonNil(l []string) []string {
+	if l == nil {
+		return []string{}
+	}
+	return l
 }
